@@ -400,7 +400,7 @@ MUT_TOKENS = ["-", "--", "-z", "--zz=1", "--zz", "-z=5", "x", "-o=", "--out=", "
 def mutate(rng, toks, decls):
     toks = list(toks)
     opts = [d for d in decls if d["t"] == "opt"]
-    kind = rng.choice(["del", "dup", "ins", "swap", "undecl", "occ", "pos", "q1", "emptyval", "novalue", "dashval"])
+    kind = rng.choice(["del", "dup", "ins", "swap", "undecl", "occ", "pos", "q1", "emptyval", "novalue", "dashval", "dashletter"])
     if kind == "del" and toks:
         del toks[rng.randrange(len(toks))]
     elif kind == "dup" and toks:
@@ -424,6 +424,13 @@ def mutate(rng, toks, decls):
         al = [n[1] for d in opts for n in opt_names(d) if len(n) == 2]
         if fl and al:
             toks.insert(rng.randint(0, len(toks)), "-" + rng.choice(fl) + rng.choice(al) + "=v")
+    elif kind == "dashletter" and opts:
+        # a cluster with '-' as a letter: "-a-", "-a-b", "-ab-", "-a-long" (what is left after a flag is taken starts with "--")
+        fl = [n[1] for d in opts if is_flag(d) for n in opt_names(d) if len(n) == 2]
+        lg = [n[2:] for d in opts for n in opt_names(d) if len(n) > 2]
+        if fl:
+            t = "-" + "".join(rng.choice(fl) for _ in range(rng.randint(1, 2))) + "-" + rng.choice(["", "", rng.choice(fl)] + lg[:1])
+            toks.insert(rng.randint(0, len(toks)), t)
     elif kind == "emptyval" and opts:
         d = rng.choice(opts)
         toks.insert(rng.randint(0, len(toks)), rng.choice(opt_names(d)) + "=")
